@@ -20,6 +20,7 @@ import (
 	"verif/mc/core"
 	"verif/mc/dump"
 	"verif/mc/gen/ir"
+	"verif/mc/props/scalekit"
 )
 
 type fail struct{ fp, exp, obs string }
@@ -462,6 +463,7 @@ type Input struct {
 	Err   *ErrInput      `json:"error,omitempty"`
 	Union *UnionInput    `json:"union,omitempty"`
 	Same  *SameNameInput `json:"same_name,omitempty"`
+	Scale *scalekit.Case `json:"scale,omitempty"`
 }
 
 const bindShards = 16
@@ -477,17 +479,20 @@ func shards(tier string) []string {
 	for i := 0; i < unionShards; i++ {
 		out = append(out, fmt.Sprintf("union/%d", i))
 	}
+	out = append(out, scalekit.ShardNames()...)
 	return append(out, "errors", "samename")
 }
 
 func run(c *core.Ctx) {
-	c.Res.Bound = "bind: typedef t at every subset of <= 3 (thorough 4) of 11 scopes x 5 spellings (bare, own prefix, foreign prefix, unknown prefix, prefix of a module without t) x 10 reference sites (all sites in one program when all resolve, one program per site otherwise), 4 prefix regimes (the submodule importing b under the prefix its owner declares for itself, with a belongs-to prefix of its own; same prefixes in module and submodule; the submodule calls b by the prefix its owner gives c; the same with c defining t too, so one prefix resolves to two modules within one program), 2 load orders; chain: 3-level chains, 2^9 set/omit patterns of units/default/pattern x 4 leaf additions for strings, 2^6 for enum, bits, leafref, decimal64, union, identityref bases; same-name: 2 programs whose chains pass through different typedefs of one name (across imports, by shadowing), 4 load orders, 12 fresh sets each; union: every ordered pair and triple of 26 member types (near-equal enums, ranges, typedefs of the same name in two modules, bits, identityrefs, leafrefs, decimal64s, a nested union) read directly, through a typedef chain, in a leaf-list and through a grouping, 2 load orders; errors: 22 unknown/unresolvable/cyclic references, in a module and in a submodule, processed twice"
+	c.Res.Bound = "bind: typedef t at every subset of <= 3 (thorough 4) of 11 scopes x 5 spellings (bare, own prefix, foreign prefix, unknown prefix, prefix of a module without t) x 10 reference sites (all sites in one program when all resolve, one program per site otherwise), 4 prefix regimes (the submodule importing b under the prefix its owner declares for itself, with a belongs-to prefix of its own; same prefixes in module and submodule; the submodule calls b by the prefix its owner gives c; the same with c defining t too, so one prefix resolves to two modules within one program), 2 load orders; chain: 3-level chains, 2^9 set/omit patterns of units/default/pattern x 4 leaf additions for strings, 2^6 for enum, bits, leafref, decimal64, union, identityref bases; scale: typedef chains and cycles of every length 1..70, 127..129, 255..257, names of every length 4..300 bytes; same-name: 2 programs whose chains pass through different typedefs of one name (across imports, by shadowing), 4 load orders, 12 fresh sets each; union: every ordered pair and triple of 26 member types (near-equal enums, ranges, typedefs of the same name in two modules, bits, identityrefs, leafrefs, decimal64s, a nested union) read directly, through a typedef chain, in a leaf-list and through a grouping, 2 load orders; errors: 22 unknown/unresolvable/cyclic references, in a module and in a submodule, processed twice"
 	report := func(caseNo int64, in Input, f *fail) {
 		c.Outcome("FAIL:" + f.fp)
 		c.Fail(caseNo, nil, f.fp, in, f.exp, f.obs)
 	}
 	parts := strings.Split(c.Shard, "/")
 	switch parts[0] {
+	case "scale":
+		scalekit.Run(c, c.Shard, scaleCases(c.Tier), checkScale, func(cs scalekit.Case) any { return Input{Scale: &cs} })
 	case "bind":
 		var shard int
 		fmt.Sscanf(parts[1], "%d", &shard)
@@ -689,6 +694,9 @@ func replay(tier string, raw json.RawMessage) (bool, string, string) {
 	case in.Chain != nil:
 		f = checkChain(*in.Chain)
 		text = chainText(*in.Chain)
+	case in.Scale != nil:
+		v := checkScale(*in.Scale)
+		return v.Fp != "", "scale:" + v.Fp, fmt.Sprintf("expected %s\nobserved %s", v.Exp, v.Obs)
 	case in.Same != nil:
 		f = checkSameName(*in.Same)
 		text = sameNameText(*in.Same)
